@@ -12,6 +12,7 @@ CFG = {
         "the toy AEAD/KDF used by the Lean driver is NOT a cipher; it is only proved to satisfy the same functional laws",
     ],
     "assumptions": [
+        "KNOWN DEFECT (unchanged tree): DeriveKey accepts passphrases with the same HMAC-SHA256 key block (trailing NULs); modelled (hmacBlock), counter-example theorem C17_counterexample_trailing_nul, oracle key DeriveKey.trailing-NUL-passphrase; the exact-passphrase clause is proved as _partial",
         "crypto/rand nonces are fresh (the model takes nonces/salts/keys as explicit parameters; the Go oracle checks freshness on every real encryption)",
         "Go int is 64 bit (Parameters.N/R/P modelled as Int within [-2^63, 2^63))",
         "Manager model covers the key hierarchy only (master keys, crypto keys, lock state); account/address key caches are C05",
